@@ -12,6 +12,7 @@ CONSTANTS Scheme <- WScheme
           NumCodes <- WNumCodes
           CodeSize <- WCodeSize
           Batches = {0}
-INVARIANTS OnlyTargetRequested OnlyTargetWritten DBClosed BatchClosed CompleteT DepsExact SizeExact
+          MaxFetches = 16384
+INVARIANTS OnlyTargetRequested OnlyTargetWritten DBClosed BatchClosed CompleteT DepsExact SizeExact FetchBound
 POSTCONDITION TraceAccepted
 CHECK_DEADLOCK FALSE
